@@ -385,6 +385,23 @@ static void leaves_elem (long idx) {
     else if (!deq (&v, q, 0)) fail (strstr (why, "type changed") ? "type-changed" : "value-changed", "through the efuns: %s", why);
   }
   at_rest ("efun save_variable/restore_variable");
+  /* 2b. the text is an input: held in a local / global / array element and used twice, it must still be what
+     save_variable returned, and both restores must give the value */
+  {
+    static const char *holder[] = { "do_twice_local", "do_twice_global", "do_twice_array" };
+    for (int h = 0; h < 3; h++) {
+      push_svalue (&v);
+      svalue_t *q = call_O (holder[h], 1);
+      if (!q) { if (text) fail ("restore-error", "%s raised: %.200s", holder[h], hx_last_error); continue; }
+      if (q->type != T_ARRAY || q->u.arr->size != 4) continue;
+      svalue_t *it = q->u.arr->item;
+      if (it[0].type == T_STRING && (it[1].type != T_STRING || strcmp (it[0].u.string, it[1].u.string)))
+        fail ("restore_variable-modified-its-argument", "%s: the text was %.80s, after two restore_variable() calls the holder has %.80s", holder[h], hx_canon_s (&it[0]), hx_canon_s (&it[1]));
+      if (!deq (&v, &it[2], 0)) fail (strstr (why, "type changed") ? "type-changed" : "value-changed", "%s, first restore: %s", holder[h], why);
+      if (!deq (&v, &it[3], 0)) fail ("second-restore-of-the-same-text-differs", "%s: %s", holder[h], why);
+    }
+  }
+  at_rest ("restore_variable of a held text, twice");
   /* 3. save_object / restore_object, zeros saved and not */
   roundtrip_object (&v, 0, 1);
   at_rest ("save_object/restore_object");
